@@ -15,9 +15,9 @@ from props import c01 as _c01
 ID = 'C04'
 LEVEL = 'fault_enumeration'
 RULE = ('Consistent envelope skeletons (1..3 interchanges x 0..3 groups x 0..4 sets x 0..8 body segments, HL trees, CLM/LX '
-        'runs) with 0..3 injected message faults from a 24-kind catalogue (control number changed/duplicated/blank/'
+        'runs) with 0..3 injected message faults from a 25-kind catalogue (control number changed/duplicated/blank/'
         'non-numeric, count off/non-numeric/empty/missing, header or trailer dropped/duplicated/swapped, orphan trailer, '
-        'truncation, HL01 gap/repeat, HL02 closed/later/non-numeric, LX gap, body segment dropped/duplicated), read through '
+        'truncation, HL01 gap/repeat, HL02 closed/later/non-numeric, LX gap, body segment dropped/duplicated/emptied), read through '
         'the chunking seam. quick/thorough also enumerate every single fault kind at every applicable position of a base '
         'skeleton. distinct_nontrivial = distinct (sorted fault-kind multiset, nesting class, sorted expected error '
         'multiset) keys.')
@@ -47,7 +47,7 @@ CTL_IDX = {'ISA': 13, 'GS': 6, 'ST': 2, 'SE': 2, 'GE': 2, 'IEA': 2}
 FAULTS = ['ctl_change', 'ctl_dup', 'ctl_blank', 'ctl_nonnum', 'count_off', 'count_nonnum', 'count_empty',
           'count_missing', 'drop_header', 'drop_trailer', 'dup_header', 'dup_trailer', 'swap_env', 'orphan_trailer',
           'truncate', 'hl01_gap', 'hl01_repeat', 'hl02_closed', 'hl02_later', 'hl02_nonnum', 'lx_gap',
-          'body_drop', 'body_dup', 'trailer_ctl_missing']
+          'body_drop', 'body_dup', 'trailer_ctl_missing', 'body_empty']
 
 
 def idxs(segs, pred):
@@ -204,6 +204,13 @@ def apply_fault(segs, kind, rng, pos=None):
         if i is None:
             return False
         segs[i][1] = str(int(segs[i][1]) + rng.randint(1, 2))
+        return True
+    if kind == 'body_empty':
+        # a body segment that has an id but no data still counts as a segment
+        i = pick(idxs(segs, lambda i, s: s[0] not in ENV and s[0] not in ('HL', 'LX', 'CLM') and len(s) > 1))
+        if i is None:
+            return False
+        segs[i] = [segs[i][0]] + rng.choice([[], [''], ['', '']])
         return True
     if kind in ('body_drop', 'body_dup'):
         i = pick(idxs(segs, lambda i, s: s[0] not in ENV and s[0] not in ('HL', 'LX', 'CLM')))
